@@ -283,6 +283,10 @@ def run(ctx):
             if len(sw) != 1 or not masks:
                 chk.unrecognised("C13.d", f"{ar.path} [mask arms]", "no switch on the mask value found", ar.loc())
             else:
+                # every route that is added is recorded: no return of add_route bypasses the dispatch on the mask (an early
+                # return for some patterns — the empty one is a per-kind catch-all — silently drops the route)
+                bypass = [r for r in b.return_blocks() if r in b.reachable(0, cut={sw[0]})]
+                chk.ob("C13.d", f"{ar.path} [every route recorded]", not bypass, "every return of add_route passes the dispatch on the mask" if not bypass else "add_route can return before looking at the mask: routes with some patterns are discarded, and the names they cover go to the default recorder", ar.loc(), nontrivial=False)
                 tbl = _add_route_table(u)
                 singles = [tbl.get(k) for k in ("COUNTER", "GAUGE", "HISTOGRAM")] if tbl else []
                 if tbl and all(x is not None and len(x) == 1 for x in singles) and len({next(iter(x)) for x in singles}) == 3:
